@@ -166,7 +166,9 @@ class TheoryOracle(walkers.DagWalker):
 
     def get_theory(self, formula: FNode) -> Theory:
         """Returns the theory for the formula."""
-        return self.walk(formula)
+        # The result is memoized: return a copy, so that the caller
+        # cannot alter the cached value
+        return self.walk(formula).copy()
 
     def _theory_from_type(self, ty: PySMTType) -> Theory:
         theory = Theory()
